@@ -19,7 +19,8 @@ from .core import Relation, err_kind
 
 PROP = "C04"
 CLAIMED = True
-COQ_MODULES = ["C04_Check", "C04_Proofs", "C04_ProofsSet", "C04_ProofsFile", "C04_ProofsSpec", "C04_ProofsAnc", "C04_Legacy", "C04_ProofsPerm"]
+COQ_MODULES = ["C04_Check", "C04_CheckSeq", "C04_Proofs", "C04_ProofsSet", "C04_ProofsFile", "C04_ProofsSpec", "C04_ProofsAnc",
+               "C04_Legacy", "C04_ProofsPerm"]
 PROPERTY_MODULE = "C04_Property"
 ALLOWED_AXIOMS = []
 RULE = (
@@ -59,10 +60,14 @@ ABSENT_LABEL = "ZZZ"
 # generators shared by both relations
 
 
-def gen_variants(rng, p, nchrom):
+def gen_variants(rng, p, nchrom, spread=False):
     chroms = ["1", "2", "chrX"][:nchrom]
     out = []
-    per = np.sort(rng.integers(0, nchrom, size=p))
+    if spread and p >= nchrom:
+        # every chromosome occurs
+        per = np.sort(np.concatenate([np.arange(nchrom), rng.integers(0, nchrom, size=p - nchrom)]))
+    else:
+        per = np.sort(rng.integers(0, nchrom, size=p))
     pos = {c: int(rng.integers(1, 40)) for c in chroms}
     for j in range(p):
         c = chroms[int(per[j])]
@@ -73,6 +78,50 @@ def gen_variants(rng, p, nchrom):
         out.append([f"v{j}", c, pos[c], [ref] + alts])
         pos[c] += int(rng.integers(1, 30))
     return out
+
+
+def is_sorted_vars(variants):
+    """can the records be bgzipped + tabix-indexed in this order (contigs contiguous, positions ascending)?"""
+    seen, last = [], {}
+    for v in variants:
+        c = v[1]
+        if c in seen and seen[-1] != c:
+            return False
+        if c not in seen:
+            seen.append(c)
+        if c in last and v[2] < last[c]:
+            return False
+        last[c] = v[2]
+    return True
+
+
+GT_ORDERS = ["sorted", "interleaved", "shuffled", "reversed"]
+
+
+def order_perm(rng, variants, mode):
+    """file order of the records of a genotype file: a permutation of range(len(variants))"""
+    p = len(variants)
+    if mode == "reversed":
+        return list(range(p))[::-1]
+    if mode == "shuffled":
+        return [int(x) for x in rng.permutation(p)]
+    if mode == "interleaved":
+        # round robin over the chromosomes (1,2,1,2,...), possibly descending inside a chromosome
+        by = {}
+        for j, v in enumerate(variants):
+            by.setdefault(v[1], []).append(j)
+        groups = list(by.values())
+        if rng.random() < 0.3:
+            groups = [g[::-1] for g in groups]
+        if rng.random() < 0.5:
+            groups = groups[::-1]
+        perm = []
+        while any(groups):
+            for g in groups:
+                if g:
+                    perm.append(g.pop(0))
+        return perm
+    return list(range(p))
 
 
 def gen_data(rng, n, variants):
@@ -178,15 +227,27 @@ def _log():
 # API relation
 
 
+HAP_CHROMS = ["1", "10", "2", "chrX"]
+
+
+def var_key(v):
+    """Variant.__lt__: start, end, ID"""
+    return (v[2], v[3], v[0])
+
+
+def vlines_unsorted(h):
+    return [var_key(v) for v in h["vars"]] != sorted(var_key(v) for v in h["vars"])
+
+
 class Api(Relation):
     name = "api"
-    coq_module = "C04_Check"
-    coq_check = "check_api"
-    coq_case_type = "acase"
-    coq_model = "model_api"
-    coq_imports = ["Tracts", "C04_Model"]
-    budget = {"quick": 2000, "thorough": 20000}
-    max_cases_per_shard = 150
+    coq_module = "C04_CheckSeq"
+    coq_check = "check_seq"
+    coq_case_type = "qcase"
+    coq_model = "model_seq"
+    coq_imports = ["Tracts", "C04_Model", "C04_Check"]
+    budget = {"quick": 1600, "thorough": 16000}
+    max_cases_per_shard = 120
     anchors = [
         ("haptools/data/haplotypes.py", "Haplotype.transform"),
         ("haptools/data/haplotypes.py", "Haplotypes.transform"),
@@ -194,6 +255,57 @@ class Api(Relation):
         ("haptools/transform.py", "HaplotypesAncestry.transform"),
         ("haptools/data/genotypes.py", "Genotypes.subset"),
     ]
+    # (Haplotype.varIDs / Haplotype.sort / Haplotypes.sort / Haplotypes.subset / Haplotypes.read are exercised by the
+    #  operation sequences too; they are not listed because anchors.json is recorded by the integrator)
+
+    # ---- operation sequences on one Haplotypes object: [["sort"], ["hsort", id], ["subset", ids, inplace],
+    #      ["reread"], ["nop"]]; the single and the whole-set transform are observed before the first and after
+    #      every operation
+    def _gen_ops(self, rng, haps, source, cls):
+        ids = [h["id"] for h in haps]
+        real = [h["id"] for h in haps if not h["rep"]]
+
+        def one():
+            r = rng.random()
+            if r < 0.3:
+                return ["sort"]
+            if r < 0.55 and real:
+                return ["hsort", real[int(rng.integers(0, len(real)))]]
+            if r < 0.8:
+                m = int(rng.integers(1, len(ids) + 1))
+                sub = [ids[i] for i in rng.permutation(len(ids))[:m].tolist()]
+                if rng.random() < 0.2:
+                    sub.insert(int(rng.integers(0, len(sub) + 1)), "NOSUCH")
+                return ["subset", sub, bool(rng.random() < 0.5)]
+            if r < 0.92 and source == "file":
+                return ["reread"]
+            return ["nop"]
+
+        if cls == "transform-sort-transform":
+            # the boundary sequence: V lines out of positional order, transform, sort, transform
+            return [["sort"]] if rng.random() < 0.6 or not real else [["hsort", real[int(rng.integers(0, len(real)))]]]
+        return [one() for _ in range(int(rng.integers(1, 5)))]
+
+    def _add_sequence(self, rng, case):
+        haps = case["haps"]
+        cls = str(rng.choice(["transform-sort-transform", "random", "random"]))
+        source = "file" if rng.random() < 0.5 else "memory"
+        if rng.random() < 0.5:
+            for h in haps:
+                if rng.random() < 0.5:
+                    h["chrom"] = HAP_CHROMS[int(rng.integers(0, len(HAP_CHROMS)))]
+        if cls == "transform-sort-transform" or rng.random() < 0.4:
+            # some haplotype lists its V lines against the positional order
+            real = [h for h in haps if not h["rep"] and len({var_key(v) for v in h["vars"]}) > 1]
+            for h in real:
+                if rng.random() < 0.7:
+                    srt = sorted(h["vars"], key=var_key)
+                    h["vars"] = srt[::-1] if rng.random() < 0.5 else [srt[i] for i in rng.permutation(len(srt))]
+        case["ops"] = self._gen_ops(rng, haps, source, cls)
+        case["source"] = source
+        case["layout"] = ["HV", "interleaved", "V-first"][int(rng.integers(0, 3))]
+        case["seq"] = cls
+        return case
 
     def _case(self, rng, small=False):
         n = int(rng.integers(1, 4 if small else 7))
@@ -235,8 +347,11 @@ class Api(Relation):
             kind += "+dup-variant-id"
             if p > 1:
                 variants[-1][0] = variants[0][0]
-        return {"nsamp": n, "vars": [[v[0], v[3]] for v in variants], "data": data, "anc": anc, "haps": haps,
+        case = {"nsamp": n, "vars": [[v[0], v[3]] for v in variants], "data": data, "anc": anc, "haps": haps,
                 "kind": kind}
+        if "dup-variant-id" not in kind and rng.random() < 0.6:
+            case = self._add_sequence(rng, case)
+        return case
 
     def generate(self, rng, n, tier):
         return [self._case(rng, small=(i % 4 == 0)) for i in range(n)]
@@ -257,7 +372,18 @@ class Api(Relation):
                              "anc": (["YRI", "CEU", ABSENT_LABEL][(k + i) % 3] if anc else None),
                              "vars": hapsets[k], "rep": False} for i, k in enumerate(hs)]
                     out.append({"nsamp": 1, "vars": vars_, "data": data, "anc": anc, "haps": haps, "kind": "exhaustive"})
-        return out[:: (1 if tier == "thorough" else 7)]
+        # the same cases with the V lines of the two-allele haplotypes against the positional order and every short
+        # history of sort operations between the transforms
+        seqs = []
+        histories = [[["sort"]], [["hsort", "H0"]], [["hsort", "H1"], ["hsort", "H0"]], [["sort"], ["sort"]],
+                     [["subset", ["H1", "H0"], True], ["sort"]], [["subset", ["H1"], False], ["hsort", "H1"]]]
+        for k, c in enumerate(out):
+            if any(len(h["vars"]) > 1 for h in c["haps"]):
+                rev = [dict(h, vars=h["vars"][::-1]) for h in c["haps"]]
+                seqs.append(dict(c, haps=rev, ops=histories[k % len(histories)], seq="exhaustive",
+                                 source=("file" if k % 2 else "memory"), layout="HV"))
+        out = out[:: (1 if tier == "thorough" else 7)] + seqs[:: (1 if tier == "thorough" else 5)]
+        return out
 
     def run_impl(self, inp):
         from haptools import data
@@ -266,9 +392,9 @@ class Api(Relation):
         log = _log()
         n, p = inp["nsamp"], len(inp["vars"])
         anc = inp["anc"]
+        ops = inp.get("ops") or []
 
         def mk():
-            # a fresh object per call: Genotypes caches its ID index (also after a failed index())
             gts = (GenotypesAncestry if anc else data.GenotypesVCF)(fname=None, log=log)
             gts.samples = tuple(f"S{i}" for i in range(n))
             gts.variants = np.array([(v[0], "1", 10 * (j + 1), tuple(v[1])) for j, v in enumerate(inp["vars"])],
@@ -279,66 +405,154 @@ class Api(Relation):
                 gts.ancestry_labels = {l: c for l, c in anc["labels"]}
             return gts
 
-        hp = (HaplotypesAncestry if anc else data.Haplotypes)(fname=None, log=log)
-        hp.data = {}
-        for h in inp["haps"]:
-            if h["rep"]:
-                obj = data.Repeat(h["chrom"], h["start"], h["end"], h["id"])
-            else:
-                if anc:
-                    obj = HaplotypeAncestry(h["chrom"], h["start"], h["end"], h["id"], h["anc"])
-                else:
-                    obj = data.Haplotype(h["chrom"], h["start"], h["end"], h["id"])
-                obj.variants = tuple(data.Variant(v[2], v[3], v[0], v[1]) for v in h["vars"])
-            hp.data[h["id"]] = obj
-        single = []
-        for h in inp["haps"]:
-            if h["rep"]:
-                continue
-            try:
-                r = hp.data[h["id"]].transform(mk())
-                r = np.asarray(r)
-                if r.shape != (n, 2):
-                    single.append({"err": 98, "shape": list(r.shape)})
-                else:
-                    single.append({"ok": r.astype(int).tolist()})
-            except Exception as e:  # noqa
-                single.append({"err": err_kind(e), "cls": type(e).__name__})
+        # ONE genotypes object for every call of a case.  Only with duplicate variant IDs a fresh object per call:
+        # Genotypes keeps its ID index after a failed index() (C12's subject, outside this property's domain)
+        shared = None if "dup-variant-id" in inp["kind"] else mk()
+
+        def G():
+            return shared if shared is not None else mk()
+
+        tmpd = None
         try:
-            gts = mk()
-            out = hp.transform(gts)
-            m = np.asarray(out.data)
-            st = {"ok": {"recs": [[str(v["id"]), str(v["chrom"]), int(v["pos"])] for v in out.variants],
-                         "data": m.astype(int).tolist() if m.ndim == 3 else None,
-                         "samples_same": tuple(out.samples) == tuple(gts.samples)}}
-            if m.ndim != 3 or not st["ok"]["samples_same"]:
-                st = {"err": 98}
-        except Exception as e:  # noqa
-            st = {"err": err_kind(e), "cls": type(e).__name__}
-        return {"single": single, "set": st}
+            cls = HaplotypesAncestry if anc else data.Haplotypes
+            if inp.get("source") == "file":
+                tmpd = tempfile.mkdtemp(prefix="hv_c04a_")
+                path = write_hap(os.path.join(tmpd, "h.hap"), inp["haps"], bool(anc), False, inp.get("layout", "HV"))
+                hp = cls(path, log=log)
+                hp.read()
+            else:
+                hp = cls(fname=None, log=log)
+                hp.data = {}
+                for h in inp["haps"]:
+                    if h["rep"]:
+                        obj = data.Repeat(h["chrom"], h["start"], h["end"], h["id"])
+                    else:
+                        if anc:
+                            obj = HaplotypeAncestry(h["chrom"], h["start"], h["end"], h["id"], h["anc"])
+                        else:
+                            obj = data.Haplotype(h["chrom"], h["start"], h["end"], h["id"])
+                        obj.variants = tuple(data.Variant(v[2], v[3], v[0], v[1]) for v in h["vars"])
+                    hp.data[h["id"]] = obj
+
+            def observe():
+                order = [str(k) for k in hp.data.keys()]
+                single = []
+                for hid in order:
+                    obj = hp.data[hid]
+                    if isinstance(obj, data.Repeat):
+                        continue
+                    try:
+                        r = np.asarray(obj.transform(G()))
+                        if r.shape != (n, 2):
+                            single.append({"err": 98, "shape": list(r.shape)})
+                        else:
+                            single.append({"ok": r.astype(int).tolist()})
+                    except Exception as e:  # noqa
+                        single.append({"err": err_kind(e), "cls": type(e).__name__})
+                try:
+                    gts = G()
+                    out = hp.transform(gts)
+                    m = np.asarray(out.data)
+                    st = {"ok": {"recs": [[str(v["id"]), str(v["chrom"]), int(v["pos"])] for v in out.variants],
+                                 "data": m.astype(int).tolist() if m.ndim == 3 else None,
+                                 "samples_same": tuple(out.samples) == tuple(gts.samples)}}
+                    if m.ndim != 3 or not st["ok"]["samples_same"]:
+                        st = {"err": 98}
+                except Exception as e:  # noqa
+                    st = {"err": err_kind(e), "cls": type(e).__name__}
+                return {"order": order, "single": single, "set": st}
+
+            first = observe()
+            steps = []
+            for op in ops:
+                if op[0] == "sort":
+                    hp.sort()
+                elif op[0] == "hsort":
+                    if op[1] in hp.data:
+                        hp.data[op[1]].sort()
+                elif op[0] == "subset":
+                    if op[2]:
+                        hp.subset(tuple(op[1]), inplace=True)
+                    else:
+                        hp = hp.subset(tuple(op[1]))
+                elif op[0] == "reread":
+                    hp.read()
+                steps.append(observe())
+            return {"single": first["single"], "set": first["set"], "order": first["order"], "steps": steps}
+        finally:
+            if tmpd:
+                shutil.rmtree(tmpd, ignore_errors=True)
 
     def encode(self, inp, obs):
-        I = L.Interner()
+        # strings are interned in sorted order: the integer order of chromosome names and IDs is Python's string order
+        strs = {"1"}
+        for v in inp["vars"]:
+            strs.add(v[0])
+            strs.update(v[1])
+        for h in inp["haps"]:
+            strs.update([h["id"], h["chrom"]])
+            if h["anc"] is not None:
+                strs.add(h["anc"])
+            for v in h["vars"]:
+                strs.update([v[0], v[1]])
         anc = inp["anc"]
+        if anc:
+            strs.update(l for l, _ in anc["labels"])
+        ops = inp.get("ops") or []
+        for op in ops:
+            if op[0] == "hsort":
+                strs.add(op[1])
+            elif op[0] == "subset":
+                strs.update(op[1])
+        I = L.Interner()
+        I("")  # 0 = "no label"
+        for x in sorted(strs):
+            I(x)
         n = inp["nsamp"]
         gv = L.lst(list(enumerate(inp["vars"])),
-                   lambda jv: f"(mkgv {L.z(I(jv[1][0]))} 1 {L.z(10 * (jv[0] + 1))} {L.zl([I(a) for a in jv[1][1]])})")
+                   lambda jv: f"(mkgv {L.z(I(jv[1][0]))} {L.z(I('1'))} {L.z(10 * (jv[0] + 1))} "
+                              f"{L.zl([I(a) for a in jv[1][1]])})")
         data = rows_term(inp["data"], L.z)
         ancm = rows_term(anc["codes"], L.z) if anc else "[]"
         labs = L.lst(anc["labels"], lambda lc: f"({L.z(I(lc[0]))}, {L.z(lc[1])})") if anc else "[]"
         G = f"(mkg {L.zl(list(range(n)))} {gv} {data} {ancm} {labs})"
-        H = L.lst(inp["haps"], lambda h: hap_term(h, I, bool(anc)))
+
+        def ph(h):
+            a = I(h["anc"]) if (anc and h["anc"] is not None) else 0
+            pvs = L.lst(h["vars"], lambda v: f"(mkpv {L.z(v[2])} {L.z(v[3])} (mkhv {L.z(I(v[0]))} {L.z(I(v[1]))}))")
+            return (f"(mkph (mkh {L.z(I(h['id']))} {L.z(I(h['chrom']))} {L.z(h['start'])} {L.z(h['end'])} {L.z(a)} [] "
+                    f"{L.b(h['rep'])}) {pvs})")
+
+        H = L.lst(inp["haps"], ph)
         nreal = sum(1 for h in inp["haps"] if not h["rep"])
         if not isinstance(obs, dict) or "single" not in obs:
             k = obs.get("kind", 99) if isinstance(obs, dict) else 99
-            obs = {"single": [{"err": k}] * nreal, "set": {"err": k}}
-        single = L.lst(obs["single"], lambda o: L.res(o, bcol_term))
-        st = obs["set"]
-        if "ok" in st:
-            sett = f"(Ok ({recs_term(st['ok']['recs'], I)}, {bmat_term(st['ok']['data'])}))"
-        else:
-            sett = f"(Err {L.z(st['err'])})"
-        return f"(mka {G} {H} {L.b(bool(anc))} {single} {sett})"
+            bad = {"order": [], "single": [{"err": k}] * nreal, "set": {"err": k}}
+            obs = dict(bad, steps=[bad] * len(ops))
+
+        def so(o):
+            single = L.lst(o["single"], lambda x: L.res(x, bcol_term))
+            st = o["set"]
+            if "ok" in st:
+                sett = f"(Ok ({recs_term(st['ok']['recs'], I)}, {bmat_term(st['ok']['data'])}))"
+            else:
+                sett = f"(Err {L.z(st['err'])})"
+            return f"(mkso {L.zl([I(x) for x in o['order']])} {single} {sett})"
+
+        def opt(op):
+            if op[0] == "sort":
+                return "OSort"
+            if op[0] == "hsort":
+                return f"(OHapSort {L.z(I(op[1]))})"
+            if op[0] == "subset":
+                return f"(OSubset {L.zl([I(x) for x in op[1]])})"
+            if op[0] == "reread":
+                return "OReread"
+            return "ONop"
+
+        first = {"order": obs.get("order", [h["id"] for h in inp["haps"]]), "single": obs["single"], "set": obs["set"]}
+        steps = [f"(ONop, {so(first)})"] + [f"({opt(op)}, {so(o)})" for op, o in zip(ops, obs.get("steps") or [])]
+        return f"(mkq {G} {H} {L.b(bool(anc))} {L.lst(steps)})"
 
     # ---- bookkeeping
     def _features(self, inp):
@@ -357,6 +571,8 @@ class Api(Relation):
                 f.append("absent-ancestry-label")
         if any(h["rep"] for h in inp["haps"]):
             f.append("repeats")
+        if any(vlines_unsorted(h) for h in real):
+            f.append("V-lines-not-in-positional-order")
         return f
 
     def nontrivial(self, inp, obs):
@@ -380,10 +596,29 @@ class Api(Relation):
                 if 1 in flat:
                     out.append("some-match")
         out.append(f"haps={sum(1 for h in inp['haps'] if not h['rep'])}")
+        ops = inp.get("ops") or []
+        if ops:
+            out.append(f"seq:{inp.get('seq', '?')}")
+            out.append(f"source={inp.get('source', 'memory')}")
+            out.append(f"ops={len(ops)}")
+            out += sorted({"op:" + o[0] for o in ops})
+            if isinstance(obs, dict) and obs.get("steps"):
+                if any(st["order"] != obs.get("order") for st in obs["steps"]):
+                    out.append("history-changes-collection-order")
+            real = [h for h in inp["haps"] if not h["rep"]]
+            if any(vlines_unsorted(h) for h in real) and any(o[0] in ("sort", "hsort") for o in ops):
+                out.append("sort-reorders-V-lines-after-a-transform")
+        else:
+            out.append("single-shot")
         return out
 
     def shrink(self, inp):
         haps = inp["haps"]
+        ops = inp.get("ops") or []
+        for i in range(len(ops)):
+            yield dict(inp, ops=ops[:i] + ops[i + 1:])
+        if inp.get("source") == "file":
+            yield dict(inp, source="memory", ops=[o for o in ops if o[0] != "reread"])
         for i in range(len(haps)):
             if len(haps) > 1:
                 yield dict(inp, haps=haps[:i] + haps[i + 1:])
@@ -408,6 +643,15 @@ class Api(Relation):
                            data=[row[:j] + row[j + 1:] for row in inp["data"]], anc=anc)
 
     def mutate(self, inp, rng):
+        # the boundary sequence: V lines against the positional order, transform, sort, transform
+        if "dup-variant-id" not in inp["kind"]:
+            rev = [dict(h, vars=sorted(h["vars"], key=var_key)[::-1]) for h in inp["haps"]]
+            real = [h["id"] for h in inp["haps"] if not h["rep"]]
+            yield dict(inp, haps=rev, ops=[["sort"]], seq="transform-sort-transform")
+            yield dict(inp, haps=rev, ops=[["hsort", x] for x in real], seq="transform-sort-transform")
+            yield dict(inp, haps=rev, ops=(inp.get("ops") or []) + [["sort"], ["nop"]], seq="random")
+            if inp.get("source") == "file":
+                yield dict(inp, haps=rev, ops=[["sort"], ["reread"], ["sort"]], seq="random")
         # push towards the boundary classes: later ALTs, absent labels
         for i, h in enumerate(inp["haps"]):
             if h["rep"]:
@@ -427,8 +671,9 @@ class Api(Relation):
         res = "answers" if "ok" in st else f"raises {st.get('cls', st.get('err'))}"
         sing = obs.get("single", []) if isinstance(obs, dict) else []
         errs = sorted({str(o.get("cls", o["err"])) for o in sing if "err" in o})
+        hist = ",".join(o[0] for o in (inp.get("ops") or [])) or "none"
         return (f"api ancestry={'yes' if inp['anc'] else 'no'}: set-wise transform {res}; single transforms "
-                f"{'raise ' + ','.join(errs) if errs else 'all answer'}")
+                f"{'raise ' + ','.join(errs) if errs else 'all answer'}; operations before the last transform: {hist}")
 
 
 # ---------------------------------------------------------------------------
@@ -442,8 +687,9 @@ def label_at(tracts, chrom, pos):
     return None
 
 
-def write_vcf(path, samples, variants, data, pop=None):
-    """bgzipped + tabix-indexed VCF; pop[s][v][t] = label or None"""
+def write_vcf(path, samples, variants, data, pop=None, index=True):
+    """bgzipped + tabix-indexed VCF, or (index=False) the plain un-indexed text file with the records in the given
+    order, whatever it is; pop[s][v][t] = label or None"""
     import pysam
 
     with open(path, "w") as f:
@@ -468,6 +714,8 @@ def write_vcf(path, samples, variants, data, pop=None):
                 cells.append(g)
             f.write(f"{v[1]}\t{v[2]}\t{v[0]}\t{v[3][0]}\t{','.join(v[3][1:])}\t.\t.\t.\t"
                     f"GT{':POP' if pop is not None else ''}\t" + "\t".join(cells) + "\n")
+    if not index:
+        return path
     pysam.tabix_compress(path, path + ".gz", force=True)
     pysam.tabix_index(path + ".gz", preset="vcf", force=True)
     os.unlink(path)
@@ -604,14 +852,49 @@ def pop_matrix(inp):
     return [[[label_at(anc["tracts"][s][t], v[1], v[2]) for t in range(2)] for v in inp["vars"]] for s in inp["samples"]]
 
 
+def permute_gt(inp, perm):
+    """the same logical data with the records of the genotype file in another order"""
+    return dict(inp, vars=[inp["vars"][j] for j in perm], data=[[row[j] for j in perm] for row in inp["data"]])
+
+
+def fix_runs(inp, k=0):
+    """which runs are possible for this input: an unsorted genotype file cannot be tabix-indexed, so a VCF in that
+    order is read un-indexed and without a region; with ancestry the POP-field run and the .bp run are always made on
+    the same data"""
+    srt = is_sorted_vars(inp["vars"])
+    use_anc = inp["anc"] is not None
+    region = inp["region"]
+    if not srt and use_anc and region is not None:
+        inp = dict(inp, region=None)
+        region = None
+    old = inp.get("runs") or []
+    cli = bool(old and old[0].get("cli"))
+    gz = bool(srt and (region is not None or (old and old[0].get("gz", True))))
+    dup = len({v[0] for v in inp["vars"]}) < len(inp["vars"])
+    if use_anc:
+        runs = [{"fmt": "vcf", "src": "pop"}, {"fmt": "vcf", "src": "bp"}]
+        if (k % 2 == 0 or not srt) and not dup:
+            runs.append({"fmt": "pgen", "src": "bp"})
+    elif srt or region is None:
+        runs = [{"fmt": "vcf", "src": "none"}] + ([] if dup else [{"fmt": "pgen", "src": "none"}])
+    else:
+        runs = [{"fmt": "pgen", "src": "none"}, {"fmt": "pgen", "src": "none"}]
+    outs = ["vcf", "pgen"]
+    for i, rr in enumerate(runs):
+        rr["out"] = outs[(k + i) % 2]
+        rr["cli"] = cli
+        rr["gz"] = gz
+    return dict(inp, runs=runs)
+
+
 class File(Relation):
     name = "file"
-    coq_module = "C04_Check"
-    coq_check = "check_file"
-    coq_case_type = "fcase"
-    coq_model = "model_file"
-    coq_imports = ["Tracts", "C04_Model"]
-    budget = {"quick": 260, "thorough": 3000}
+    coq_module = "C04_CheckSeq"
+    coq_check = "check_filex"
+    coq_case_type = "xcase"
+    coq_model = "model_filex"
+    coq_imports = ["Tracts", "C04_Model", "C04_Check"]
+    budget = {"quick": 240, "thorough": 3000}
     max_cases_per_shard = 120
     timeout_per_case = 180
     anchors = [
@@ -628,7 +911,14 @@ class File(Relation):
         n = int(rng.integers(1, 6))
         p = int(rng.integers(1, 9))
         nchrom = int(rng.choice([1, 1, 2, 3]))
-        variants = gen_variants(rng, p, nchrom)
+        # order of the records in the genotype file (VCF and PVAR): position-sorted, chromosomes interleaved
+        # (1,2,1,2,...), any permutation, descending
+        gt_order = str(rng.choice(["sorted", "sorted", "sorted", "interleaved", "interleaved", "shuffled", "reversed"]))
+        if gt_order == "interleaved":
+            nchrom = int(rng.choice([2, 2, 3]))
+            p = max(p, nchrom + 1)
+        variants = gen_variants(rng, p, nchrom, spread=(gt_order == "interleaved"))
+        variants = [variants[j] for j in order_perm(rng, variants, gt_order)]
         names = ["S1", "HG00096", "a_b", "x_1", "NA12878", "s_2_1"]
         samples = [names[i] for i in rng.permutation(len(names))[:n]]
         data = gen_data(rng, n, variants)
@@ -683,6 +973,9 @@ class File(Relation):
                 a = max(1, int(rng.choice(poss)) + int(rng.integers(-1, 2)))
                 b = max(a, int(rng.choice(poss)) + int(rng.integers(-1, 2)))
                 region = [c, a, b if form == 1 else None]
+        srt = is_sorted_vars(variants)
+        if not srt and use_anc:
+            region = None      # a region needs a tabix index, which needs sorted records; POP fields need a VCF
         if rng.random() < 0.35:
             allids = [h["id"] for h in haps]
             m = int(rng.integers(1, len(allids) + 1))
@@ -723,18 +1016,11 @@ class File(Relation):
             ids = ["NOSUCH"]
         # which runs
         cli = bool(rng.random() < 0.35)
-        outs = ["vcf", "pgen"]
-        if use_anc:
-            runs = [{"fmt": "vcf", "src": "pop"}, {"fmt": "vcf", "src": "bp"}]
-            if k % 2 == 0:
-                runs.append({"fmt": "pgen", "src": "bp"})
-        else:
-            runs = [{"fmt": "vcf", "src": "none"}, {"fmt": "pgen", "src": "none"}]
-        for i, rr in enumerate(runs):
-            rr["out"] = outs[(k + i) % 2]
-            rr["cli"] = cli
-        return {"samples": samples, "vars": variants, "data": data, "haps": haps, "indexed": indexed, "region": region,
-                "ids": ids, "samp": samp, "anc": anc, "runs": runs, "kind": kind, "layout": layout}
+        gz = bool(rng.random() < 0.7)
+        case = {"samples": samples, "vars": variants, "data": data, "haps": haps, "indexed": indexed, "region": region,
+                "ids": ids, "samp": samp, "anc": anc, "runs": [{"cli": cli, "gz": gz}], "kind": kind, "layout": layout,
+                "gt_order": gt_order}
+        return fix_runs(case, k)
 
     def generate(self, rng, n, tier):
         return [self._case(rng, k) for k in range(n)]
@@ -791,7 +1077,36 @@ class File(Relation):
             out.append({"samples": samples, "vars": variants, "data": datas[0], "haps": haps, "indexed": indexed,
                         "region": region, "ids": ids, "samp": samp, "anc": anc, "runs": runs, "kind": "exhaustive",
                         "layout": "HV"})
-        return out[:: (1 if tier == "thorough" else 5)]
+        out = out[:: (1 if tier == "thorough" else 5)]
+        # every order of the records of a two-chromosome genotype file (2 records each, equal coordinates on the two
+        # chromosomes, different ancestry there), ancestry from POP fields and from the .bp file, with a haplotype per
+        # chromosome and label
+        v4 = [["c1a", "1", 100, ["A", "G"]], ["c2a", "2", 100, ["C", "T"]], ["c1b", "1", 200, ["G", "A", "T"]],
+              ["c2b", "2", 200, ["T", "C"]]]
+        d4 = [[[1, 1], [1, 0], [2, 1], [1, 1]], [[1, 0], [1, 1], [0, 2], [0, 1]]]
+        tr4 = {"s1": [[["YRI", "1", 150], ["CEU", "1", MAXI], ["CEU", "2", 100], ["YRI", "2", MAXI]],
+                      [["CEU", "1", MAXI], ["YRI", "2", 199], ["CEU", "2", MAXI]]],
+               "s_2": [[["CEU", "1", 99], ["YRI", "1", MAXI], ["YRI", "2", MAXI]],
+                       [["YRI", "2", 150], ["CEU", "2", 300], ["YRI", "1", 100], ["CEU", "1", 200]]]}
+        hsets = [
+            [("1", "YRI", [["c1a", "G", 100, 101]]), ("2", "YRI", [["c2a", "T", 100, 101]])],
+            [("1", "CEU", [["c1b", "T", 200, 201], ["c1a", "G", 100, 101]]),
+             ("2", "CEU", [["c2a", "T", 100, 101], ["c2b", "C", 200, 201]])],
+            [("2", "YRI", [["c2b", "C", 200, 201]]), ("1", "YRI", [["c1a", "G", 100, 101], ["c1b", "A", 200, 201]])],
+        ]
+        extra = []
+        for k, (perm, hs, anc_on) in enumerate(itertools.product(itertools.permutations(range(4)), range(len(hsets)),
+                                                                 [True, False])):
+            haps = [{"id": f"H{n}", "chrom": c, "start": min(v[2] for v in hv), "end": max(v[3] for v in hv),
+                     "anc": (lab if anc_on else None), "vars": hv, "rep": False}
+                    for n, (c, lab, hv) in enumerate(hsets[hs])]
+            case = {"samples": samples, "vars": v4, "data": d4, "haps": haps, "indexed": False, "region": None,
+                    "ids": None, "samp": (None if k % 4 else ["s_2"]),
+                    "anc": ({"tracts": tr4, "bp_order": [["s1", "s_2"], ["s_2", "s1"]][k % 2]} if anc_on else None),
+                    "runs": [{"cli": (k % 5 == 0), "gz": (k % 2 == 0)}], "kind": "exhaustive-gt-order",
+                    "layout": ["HV", "interleaved", "V-first"][k % 3]}
+            extra.append(fix_runs(permute_gt(case, list(perm)), k))
+        return out + extra[:: (1 if tier == "thorough" else 6)]
 
     # ---- what the run is expected to load (python mirror used only to route around C08's PGEN empty-match failure)
     def _wanted_found(self, inp):
@@ -833,7 +1148,8 @@ class File(Relation):
             pop = pop_matrix(inp) if run["src"] == "pop" else None
             if pop is not None and any(x is None for s in pop for c in s for x in c):
                 return {"skipped": "pop-undefined"}
-            gtf = write_vcf(os.path.join(d, "g.vcf"), inp["samples"], inp["vars"], inp["data"], pop)
+            gtf = write_vcf(os.path.join(d, "g.vcf"), inp["samples"], inp["vars"], inp["data"], pop,
+                            index=run.get("gz", True))
         else:
             gtf = write_pgen(os.path.join(d, "g"), inp["samples"], inp["vars"], inp["data"])
         if run["src"] == "bp":
@@ -926,22 +1242,29 @@ class File(Relation):
     def encode(self, inp, obs):
         terms = []
         runs = obs.get("runs") if isinstance(obs, dict) else None
+        os_ = [(runs[i] if runs else {"err": (obs.get("kind", 99) if isinstance(obs, dict) else 99)})
+               for i in range(len(inp["runs"]))]
+
+        def out_term(o, I):
+            if "ok" in o:
+                x = o["ok"]
+                return (f"(Ok ({recs_term(x['recs'], I)}, {L.zl([I(s) for s in x['samples']])}, "
+                        f"{bmat_term(x['data'])}))")
+            if "err" in o:
+                return f"(Err {L.z(o['err'])})"
+            return "(Err 96)"  # output unreadable: neither the model's answer nor an allowed failure
+
         for i, run in enumerate(inp["runs"]):
             I = L.Interner()
             I("")  # 0 is reserved for "no label"
-            o = runs[i] if runs else {"err": (obs.get("kind", 99) if isinstance(obs, dict) else 99)}
+            o = os_[i]
             if "skipped" in o:
                 continue
             t = self._tinput(inp, run, I)
-            if "ok" in o:
-                x = o["ok"]
-                ot = (f"(Ok ({recs_term(x['recs'], I)}, {L.zl([I(s) for s in x['samples']])}, "
-                      f"{bmat_term(x['data'])}))")
-            elif "err" in o:
-                ot = f"(Err {L.z(o['err'])})"
-            else:
-                ot = "(Err 96)"  # output unreadable: neither the model's answer nor an allowed failure
-            terms.append(f"(mkf {t} {ot} {L.b(o.get('warned', False))})")
+            ot = out_term(o, I)
+            # what the other runs on the same logical data (other ancestry source / file formats) answered
+            peers = L.lst([out_term(os_[j], I) for j in range(len(os_)) if j != i and "ok" in os_[j]])
+            terms.append(f"(mkx (mkf {t} {ot} {L.b(o.get('warned', False))}) {peers})")
         return terms
 
     # ---- bookkeeping
@@ -983,6 +1306,23 @@ class File(Relation):
     def classes(self, inp, obs):
         out = [inp["kind"].split("+")[0], "indexed-hap" if inp["indexed"] else f"plain-hap-{inp.get('layout', 'HV')}"] \
             + self._features(inp)
+        vs = inp["vars"]
+        chs = [v[1] for v in vs]
+        if any(chs[i] != chs[i + 1] and chs[i] in chs[i + 1:] for i in range(len(chs) - 1)):
+            out.append("gt-chromosomes-interleaved")
+        if any(a[1] == b[1] and a[2] > b[2] for i, a in enumerate(vs) for b in vs[i + 1:]):
+            out.append("gt-positions-descending-within-chromosome")
+        out.append("gt-sorted" if is_sorted_vars(vs) else "gt-unsorted")
+        if any(r["fmt"] == "vcf" and not r.get("gz", True) for r in inp["runs"]):
+            out.append("vcf-unindexed")
+        pos = {v[0]: j for j, v in enumerate(vs)}
+        if any([pos[v[0]] for v in h["vars"] if v[0] in pos] != sorted(pos[v[0]] for v in h["vars"] if v[0] in pos)
+               for h in inp["haps"]):
+            out.append("hap-order-differs-from-gt-order")
+        if inp["anc"] and isinstance(obs, dict) and "runs" in obs:
+            srcs = {r["src"] for r, o in zip(inp["runs"], obs["runs"]) if "ok" in o}
+            if {"pop", "bp"} <= srcs:
+                out.append("pop-and-bp-both-answered")
         if any(not h["rep"] and not h["vars"] for h in inp["haps"]):
             out.append("haplotype-without-variants")
         if "+" in inp["kind"]:
@@ -994,6 +1334,13 @@ class File(Relation):
         return out
 
     def shrink(self, inp):
+        if not is_sorted_vars(inp["vars"]):
+            chroms = []
+            for v in inp["vars"]:
+                if v[1] not in chroms:
+                    chroms.append(v[1])
+            perm = sorted(range(len(inp["vars"])), key=lambda j: (chroms.index(inp["vars"][j][1]), inp["vars"][j][2]))
+            yield fix_runs(permute_gt(inp, perm))
         if len(inp["runs"]) > 1:
             for i in range(len(inp["runs"])):
                 yield dict(inp, runs=[inp["runs"][i]])
@@ -1036,6 +1383,12 @@ class File(Relation):
                         yield dict(inp, anc=dict(inp["anc"], tracts=nt))
 
     def mutate(self, inp, rng):
+        # the same data with the genotype records in another file order (interleaved chromosomes, descending, any)
+        if "dup-gt-id" not in inp["kind"]:
+            for mode in ("interleaved", "reversed", "shuffled", "shuffled"):
+                perm = order_perm(rng, inp["vars"], mode)
+                if perm != list(range(len(perm))):
+                    yield fix_runs(permute_gt(inp, perm))
         if inp["anc"]:
             order = inp["anc"]["bp_order"]
             if len(order) > 1:
